@@ -18,7 +18,7 @@ LEVEL_NOTE = ('Reference: pkmc/profiles.py (stable evaluation of 10^x/(1+10^x)).
 TECHNIQUE = 'exhaustive enumeration of a finite lattice of states of the real container objects against a closed-form reference'
 ASSUMPTIONS = ['overwriting Group.pka_value of the AVR groups is a faithful way to reach arbitrary predicted values']
 
-GRIDS = ((0.0, 14.0, 1.0), (0.0, 14.0, 0.1), (-2.0, 16.0, 0.5), (3.0, 9.0, 0.25))
+GRIDS = ((0.0, 14.0, 1.0), (0.125, 13.875, 0.25), (0.0, 14.0, 0.1), (-2.0, 16.0, 0.5), (3.0, 9.0, 0.25), (6.995, 7.05, 0.005), (1.0, 1.01, 0.001))
 PI_WINDOWS = ((0.0, 14.0), (2.0, 12.0), (-5.0, 20.0))
 PRECISIONS = (1e-4, 1e-2, 2.5e-3, 4e-5, 2e-4, 0.3, 1e-7)   # the stated precision need not be a power of ten
 REAL_INPUTS = [('file', '3SGB'), ('file', '1HPX'), ('file', '4DFR'), ('file', '1FTJ'),
@@ -35,7 +35,11 @@ REAL_INPUTS = [('file', '3SGB'), ('file', '1HPX'), ('file', '4DFR'), ('file', '1
                ('c08', dict(kind='alt', layout=[('A', 'ALA'), ('B', 'ASP'), ('C', 'ASPs')], lys=[('B', 'LYSs'), ('C', 'LYS')])),
                ('c08', dict(kind='model', layout=[(1, 'ASP'), (2, 'ASPnoCG'), (3, 'absent')])),
                ('c08', dict(kind='bridge', how='alt', layout=[('A', 'bonded'), ('B', 'free')])),
-               ('kmodels', 'first-lacks-B'), ('kmodels', 'second-lacks-B'), ('kmodels', 'both')]
+               ('kmodels', 'first-lacks-B'), ('kmodels', 'second-lacks-B'), ('kmodels', 'both'),
+               # covalently coupled groups (N-terminal Asp / Cys, phosphate) under the parameter toggles that act on them
+               ('cfgwin', ['3SGB', 'I', 0, 8], 'common_charge_centre 1'), ('cfgwin', ['1HPX', 'A', 66, 8], 'common_charge_centre 1'),
+               ('cfgwin', ['3SGB', 'I', 0, 8], 'common_charge_centre 1\nshared_determinants 1'), ('cfgwin', ['3SGB', 'I', 0, 8], 'remove_penalised_group 0'),
+               ('cfglig', 'MPO', 'common_charge_centre 1'), ('cfglig', 'MPO', 'remove_penalised_group 0')]
 
 
 def sigs(tier):
@@ -226,9 +230,27 @@ def run_shard(shard, ctx):
     return acc
 
 
+def cfg_file(edits):
+    from . import c02
+    want = dict(ln.split(None, 1) for ln in edits.split('\n'))
+    path = os.path.abspath('c09_%s.cfg' % jhash(edits))
+    if not os.path.exists(path):
+        lines = []
+        for ln in c02.cfg_variants()[(1, 0, 0)].splitlines(True):
+            w = ln.split()
+            if w and w[0] in want:
+                ln = '%s %s\n' % (w[0], want[w[0]])
+            lines.append(ln)
+        with open(path, 'w') as fh:
+            fh.write(''.join(lines))
+    return path
+
+
 def real_mol(inp, seed, opts=()):
     if inp[0] == 'kmodels':
         opts = tuple(opts) + ('--keep-protons',)
+    if inp[0] in ('cfgwin', 'cfglig'):
+        opts = tuple(opts) + ('-p', cfg_file(inp[2]))
     text = real_text(inp, seed)
     return pk.run(text, opts), text
 
@@ -236,6 +258,11 @@ def real_mol(inp, seed, opts=()):
 def real_text(inp, seed):
     if inp[0] == 'file':
         return gen.library().text(inp[1])
+    if inp[0] == 'cfgwin':
+        from .. import corpus
+        return gen.to_text(corpus.build(corpus.window_desc(*inp[1]), seed))
+    if inp[0] == 'cfglig':
+        return gen.to_text(gen.pair(inp[1], 'LYS', 3.0, level='mid', offset=gen.seed_offset(seed)))
     if inp[0] == 'c08':
         from . import c08
         d = dict(inp[1])
